@@ -19,6 +19,7 @@ type Mode struct {
 	Optimize bool
 	Undef    bool   // AllowUndefinedVariables
 	Expect   string // "", bool, int64, float64
+	Const    bool   // ConstExpr for the pure functions AnyId, Var, Cat, Id
 }
 
 func (m Mode) String() string {
@@ -34,6 +35,9 @@ func (m Mode) String() string {
 	if m.Expect != "" {
 		s += ":as" + m.Expect
 	}
+	if m.Const {
+		s += ":const"
+	}
 	return s
 }
 
@@ -48,6 +52,8 @@ func ParseMode(s string) (Mode, error) {
 			m.Optimize = false
 		case "undef":
 			m.Undef = true
+		case "const":
+			m.Const = true
 		case "asbool":
 			m.Expect = "bool"
 		case "asint64":
@@ -59,7 +65,7 @@ func ParseMode(s string) (Mode, error) {
 		}
 	}
 	switch m.Env {
-	case "struct", "ptr", "map", "none", "eval":
+	case "struct", "ptr", "map", "none", "eval", "altmap":
 	default:
 		return m, fmt.Errorf("bad env kind %q", m.Env)
 	}
@@ -113,11 +119,18 @@ func (m Mode) options() []expr.Option {
 		ops = append(ops, expr.Env(sample))
 	case "map":
 		ops = append(ops, expr.Env(sample.AsMap()))
+	case "altmap":
+		ops = append(ops, expr.Env(sample.AsAltMap()))
 	}
 	if m.Undef {
 		ops = append(ops, expr.AllowUndefinedVariables())
 	}
 	ops = append(ops, expr.Optimize(m.Optimize))
+	if m.Const && m.Env != "none" {
+		for _, fn := range []string{"AnyId", "Var", "Cat", "Id"} {
+			ops = append(ops, expr.ConstExpr(fn))
+		}
+	}
 	switch m.Expect {
 	case "bool":
 		ops = append(ops, expr.AsBool())
@@ -160,6 +173,8 @@ func envValue(e *Env, m Mode) interface{} {
 		return e
 	case "map":
 		return e.AsMap()
+	case "altmap":
+		return e.AsAltMap()
 	default:
 		return *e
 	}
